@@ -36,7 +36,7 @@ NewSess(e) == [proto |-> e.proto, tOpen |-> e.t, closed |-> FALSE, closeT |-> Of
                sent |-> <<>>, nrcv |-> 0, sub |-> <<>>, del |-> <<>>,
                created |-> <<>>, flushed |-> {}, cbReg |-> <<>>, cbRun |-> <<>>, lastFlush |-> <<>>, phase |-> "idle",
                causes |-> {}, pollOut |-> 0, dataOut |-> 0, closeAsked |-> Off, buffered |-> <<>>, closeSeen |-> FALSE, lastPost |-> <<>>, cset |-> {}, grace |-> Off, closeCalled |-> FALSE, parked |-> 0, may |-> {}, v3lossy |-> FALSE, sloppy |-> FALSE, nested |-> FALSE, inDispatch |-> FALSE, probeT |-> Off, coincide |-> FALSE,
-               accAtClose |-> {}, retd |-> {}, hard |-> FALSE, closeReason |-> "", gracefulAsked |-> FALSE]
+               accAtClose |-> {}, retd |-> {}, noopDue |-> Off, hard |-> FALSE, closeReason |-> "", gracefulAsked |-> FALSE]
 
 \* ---------------------------------------------------------------- common per-event checks for sock.* events
 \* lifecycle clauses that apply to every event sampled from a socket
@@ -57,6 +57,8 @@ TimeViols(sid, s, t) ==
        (IF PingMissed(s.pingDue, t) /\ ~s.closeCalled THEN <<V("C07", "ping_not_sent_when_due", sid, [due |-> s.pingDue, now |-> t])>> ELSE <<>>)
     \o (IF TimeoutMissed(s.deadline, t) THEN <<V("C07", "session_open_past_ping_deadline", sid, [deadline |-> s.deadline, now |-> t])>> ELSE <<>>)
     \o (IF CloseOverdue(s.closeAsked, s.deadline, cfg, t) THEN <<V("C12", "graceful_close_not_bounded", sid, [asked |-> s.closeAsked, now |-> t])>> ELSE <<>>)
+    \* C08: while a probed candidate is alive, a pending poll is released (noop) by the next tick of the 100 ms check
+    \o (IF s.noopDue # Off /\ t > s.noopDue THEN <<V("C08", "pending_poll_not_released_for_upgrade", sid, [due |-> s.noopDue, now |-> t])>> ELSE <<>>)
 \* after reporting, push the obligations forward so that one breach is reported once
 TimeAdvance(s, t) ==
     IF s.closed \/ s.parked > 0 THEN s ELSE
@@ -66,7 +68,8 @@ TimeAdvance(s, t) ==
               !.deadline = IF TimeoutMissed(s.deadline, t) THEN Off
                            ELSE IF PingMissed(s.pingDue, t) /\ s.closeCalled /\ s.deadline = Off /\ s.pingDue + cfg.pt >= t THEN s.pingDue + cfg.pt
                            ELSE s.deadline,
-              !.closeAsked = IF CloseOverdue(s.closeAsked, s.deadline, cfg, t) THEN Off ELSE s.closeAsked]
+              !.closeAsked = IF CloseOverdue(s.closeAsked, s.deadline, cfg, t) THEN Off ELSE s.closeAsked,
+              !.noopDue = IF s.noopDue # Off /\ t > s.noopDue THEN Off ELSE s.noopDue]
 RECURSIVE AllTimeViols(_, _)
 AllTimeViols(sids, t) == IF sids = {} THEN <<>> ELSE LET x == CHOOSE y \in sids : TRUE IN TimeViols(x, S[x], t) \o AllTimeViols(sids \ {x}, t)
 S1(t) == [x \in DOMAIN S |-> TimeAdvance(S[x], t)]
@@ -92,6 +95,7 @@ Receive(s, sid, pk, acc) ==
               IN Receive([s EXCEPT !.nrcv = Max2(idx, s.nrcv)], sid, Tail(pk), acc \o v)
 
 \* ---------------------------------------------------------------- the fold
+ProbedCand(sid) == \E c \in DOMAIN Cn : Cn[c].sid = sid /\ Cn[c].role = "cand" /\ Cn[c].ponged /\ ~Cn[c].closed
 ConnRole(cid) == IF Has(Cn, cid) THEN Cn[cid].role ELSE "none"
 
 Step ==
@@ -224,7 +228,7 @@ Step ==
        [] e.e = "sock.upgrading" /\ known ->
             /\ S' = Upd([s EXCEPT !.upgrading = TRUE, !.probeT = t]) /\ viol' = viol \o tv \o SockCommon(e, s) /\ UNCHANGED <<cfg, Rq, Cn>>
        [] e.e = "sock.upgrade" /\ known ->
-            /\ S' = Upd([s EXCEPT !.tr = e.tr, !.nupg = s.nupg + 1, !.deadline = Off, !.upgrading = FALSE])
+            /\ S' = Upd([s EXCEPT !.tr = e.tr, !.nupg = s.nupg + 1, !.deadline = Off, !.upgrading = FALSE, !.noopDue = Off])
             /\ Cn' = [c \in DOMAIN Cn |-> IF Cn[c].sid = e.sid /\ Cn[c].role = "cand" /\ Cn[c].upgradeSent THEN [Cn[c] EXCEPT !.role = "main"] ELSE Cn[c]]
             /\ viol' = viol \o tv \o SockCommon(e, s)
                  \o (IF s.nupg >= 1 THEN <<V("C08", "upgraded_more_than_once", e.sid, "")>> ELSE <<>>)
@@ -239,7 +243,7 @@ Step ==
                 modelClients == {x \in DOMAIN SS : ~SS[x].closed} \ {e.sid}
             IN /\ S' = Upd([s EXCEPT !.closed = TRUE, !.closeT = t, !.nclose = s.nclose + 1, !.rank = Rank("closed"),
                                      !.closeReason = IF s.nclose = 0 THEN e.reason ELSE s.closeReason,
-                                     !.pingDue = Off, !.deadline = Off, !.closeAsked = Off])
+                                     !.pingDue = Off, !.deadline = Off, !.closeAsked = Off, !.noopDue = Off])
                /\ viol' = viol \o tv \o SockCommon(e, s)
                     \o (IF s.nclose >= 1 THEN <<V("C03", "second_close_event", e.sid, e.reason)>> ELSE <<>>)
                     \o (IF e.reason \notin DocumentedReasons THEN <<V("C03", "undocumented_close_reason", e.sid, e.reason)>> ELSE <<>>)
@@ -273,7 +277,7 @@ Step ==
             LET s0 == SS[e.id]
                 n == IF s0.parked > 0 THEN s0.parked - 1 ELSE 0
                 rebase(x) == IF n = 0 /\ x # Off /\ x < t THEN Off ELSE x
-            IN /\ S' = Put(SS, e.id, [s0 EXCEPT !.parked = n, !.pingDue = rebase(s0.pingDue), !.deadline = rebase(s0.deadline), !.closeAsked = rebase(s0.closeAsked)])
+            IN /\ S' = Put(SS, e.id, [s0 EXCEPT !.parked = n, !.pingDue = rebase(s0.pingDue), !.deadline = rebase(s0.deadline), !.closeAsked = rebase(s0.closeAsked), !.noopDue = rebase(s0.noopDue)])
                /\ viol' = viol \o tv /\ UNCHANGED <<cfg, Rq, Cn>>
        [] e.e = "reent" /\ known ->
             \* a Send issued from inside the packetCreate listener of another Send completes before it: their relative
@@ -291,7 +295,8 @@ Step ==
                 overlap == live /\ ((e.kind = "poll" /\ s0.pollOut # 0) \/ (e.kind = "post" /\ s0.dataOut # 0))
                 ns == IF ~live THEN s0
                       ELSE IF overlap THEN [s0 EXCEPT !.causes = s0.causes \cup {"error"}]
-                      ELSE IF e.kind = "poll" THEN [s0 EXCEPT !.pollOut = e.rid]
+                      ELSE IF e.kind = "poll" THEN [s0 EXCEPT !.pollOut = e.rid,
+                                                                !.noopDue = IF ProbedCand(sid) /\ s0.tr = "polling" /\ ~s0.closed THEN t + 100000 ELSE Off]
                       ELSE IF e.kind = "post" THEN [s0 EXCEPT !.dataOut = e.rid] ELSE s0
             IN /\ Rq' = Put(Rq, e.rid, [kind |-> e.kind, sid |-> sid, nresp |-> 0, aborted |-> FALSE, returned |-> FALSE, overlap |-> overlap,
                                          toClosed |-> live /\ s0.closed, inCloseWindow |-> live /\ s0.parked > 0, msgs |-> IF live /\ e.kind = "post" THEN s0.lastPost ELSE <<>>, status |-> 0, t |-> t])
@@ -317,7 +322,7 @@ Step ==
                 live == sid # "" /\ Has(SS, sid)
                 s0 == IF live THEN SS[sid] ELSE s
                 rc == IF live /\ e.status = 200 /\ rq.kind = "poll" THEN Receive(s0, sid, e.pk, <<>>) ELSE [s |-> s0, v |-> <<>>]
-                s2 == IF rq.kind = "poll" /\ rc.s.pollOut = e.rid THEN [rc.s EXCEPT !.pollOut = 0]
+                s2 == IF rq.kind = "poll" /\ rc.s.pollOut = e.rid THEN [rc.s EXCEPT !.pollOut = 0, !.noopDue = Off]
                       ELSE IF rq.kind = "post" /\ rc.s.dataOut = e.rid THEN [rc.s EXCEPT !.dataOut = 0] ELSE rc.s
             IN /\ Rq' = Put(Rq, e.rid, [rq EXCEPT !.nresp = rq.nresp + 1, !.status = e.status])
                /\ S' = IF live THEN Put(SS, sid, s2) ELSE SS
@@ -351,8 +356,13 @@ Step ==
             /\ Cn' = Put(Cn, e.cid, [sid |-> e.sid, role |-> IF e.sid = "" THEN "main" ELSE "cand", upgradeSent |-> FALSE, probed |-> FALSE,
                                     ponged |-> FALSE, closed |-> FALSE,
                                     \* a candidate for a session that has already switched must be closed, never probed
-                                    lateCand |-> e.sid # "" /\ Has(SS, e.sid) /\ SS[e.sid].nupg > 0])
+                                    lateCand |-> e.sid # "" /\ Has(SS, e.sid) /\ SS[e.sid].nupg > 0,
+                                    toClosed |-> e.sid # "" /\ Has(SS, e.sid) /\ SS[e.sid].closed])
             /\ S' = SS /\ viol' = viol \o tv /\ UNCHANGED <<cfg, Rq>>
+       [] e.e = "cli.ws.open" ->
+            /\ S' = SS /\ UNCHANGED <<cfg, Rq, Cn>>
+            /\ viol' = viol \o tv \o (IF Has(Cn, e.cid) /\ Cn[e.cid].toClosed
+                                       THEN <<V("C04", "closed_session_still_reachable", e.sid, [cid |-> e.cid, via |-> "websocket upgrade accepted"])>> ELSE <<>>)
        [] e.e = "cli.ws.recv" ->
             LET c == Cn[e.cid]
                 sid == e.sid
@@ -360,7 +370,10 @@ Step ==
                 isMain == c.role = "main"
                 rc == IF live /\ isMain THEN Receive(SS[sid], sid, <<e.pk>>, <<>>) ELSE [s |-> s, v |-> <<>>]
             IN /\ Cn' = Put(Cn, e.cid, [c EXCEPT !.sid = sid, !.ponged = c.ponged \/ (e.pk.ty = "pong" /\ e.pk.d = "probe")])
-               /\ S' = IF live /\ isMain THEN Put(SS, sid, rc.s) ELSE SS
+               /\ S' = IF live /\ isMain THEN Put(SS, sid, rc.s)
+                       ELSE IF live /\ c.role = "cand" /\ e.pk.ty = "pong" /\ e.pk.d = "probe" /\ SS[sid].pollOut # 0 /\ SS[sid].tr = "polling" /\ ~SS[sid].closed
+                       THEN Put(SS, sid, [SS[sid] EXCEPT !.noopDue = t + 100000])
+                       ELSE SS
                /\ viol' = viol \o tv \o rc.v
                     \o (IF ~isMain /\ e.pk.ty = "message" THEN <<V("C08", "message_sent_to_candidate_before_upgrade", sid, e.pk.id)>> ELSE <<>>)
                     \o (IF c.lateCand /\ e.pk.ty = "pong" THEN <<V("C08", "candidate_entertained_after_upgrade", sid, e.cid)>> ELSE <<>>)
@@ -391,11 +404,14 @@ Step ==
                 sid == c.sid
                 live == sid # "" /\ Has(SS, sid) /\ c.role = "main"
             IN /\ Cn' = Put(Cn, e.cid, [c EXCEPT !.closed = TRUE])
-               /\ S' = IF live THEN Put(SS, sid, [SS[sid] EXCEPT !.causes = SS[sid].causes \cup {"peer", "error"}]) ELSE SS
+               /\ S' = IF live THEN Put(SS, sid, [SS[sid] EXCEPT !.causes = SS[sid].causes \cup {"peer", "error"}])
+                       ELSE IF sid # "" /\ Has(SS, sid) THEN Put(SS, sid, [SS[sid] EXCEPT !.noopDue = Off]) ELSE SS
                /\ viol' = viol \o tv /\ UNCHANGED <<cfg, Rq>>
        [] e.e = "cli.ws.closed" ->
             /\ Cn' = Put(Cn, e.cid, [Cn[e.cid] EXCEPT !.closed = TRUE, !.role = IF Cn[e.cid].role = "cand" THEN "dead" ELSE Cn[e.cid].role])
-            /\ S' = IF Cn[e.cid].role = "main" /\ Has(SS, Cn[e.cid].sid) THEN Put(SS, Cn[e.cid].sid, [SS[Cn[e.cid].sid] EXCEPT !.closeSeen = TRUE]) ELSE SS
+            /\ S' = IF Cn[e.cid].role = "main" /\ Has(SS, Cn[e.cid].sid) THEN Put(SS, Cn[e.cid].sid, [SS[Cn[e.cid].sid] EXCEPT !.closeSeen = TRUE])
+                    ELSE IF Cn[e.cid].role = "cand" /\ Has(SS, Cn[e.cid].sid) THEN Put(SS, Cn[e.cid].sid, [SS[Cn[e.cid].sid] EXCEPT !.noopDue = Off])
+                    ELSE SS
             /\ viol' = viol \o tv /\ UNCHANGED <<cfg, Rq>>
 
        \* ------------------------------------------------------------ quiescent snapshots
